@@ -159,6 +159,22 @@ func (w *World) parseGoType(s string, from *types.Package) (types.Type, error) {
 		}
 		return types.NewSlice(t), nil
 	}
+	if j := strings.Index(s, "["); j > 0 && strings.HasSuffix(s, "]") {
+		// instantiated generic type: pkg.Name[T1,T2]
+		base, err := w.parseGoType(s[:j], from)
+		if err != nil {
+			return nil, err
+		}
+		var targs []types.Type
+		for _, a := range strings.Split(s[j+1:len(s)-1], ",") {
+			t, err := w.parseGoType(a, from)
+			if err != nil {
+				return nil, err
+			}
+			targs = append(targs, t)
+		}
+		return types.Instantiate(nil, base, targs, false)
+	}
 	if i := strings.LastIndex(s, "."); i >= 0 {
 		pn, name := s[:i], s[i+1:]
 		p := w.pkgByName(pn, from)
